@@ -133,6 +133,24 @@ def import_graph(nfiles=3, slots=2, with_missing=False, with_wellknown=False, na
     return sc, Info(schemas=schemas, names=names, edges=edges, start=start, opts=opts, nfiles=nfiles, slots=slots)
 
 
+def imports_annotated():
+    """an xs:annotation before the imports or between two imports (imports need not be the first children of xs:schema)"""
+    sc, info = import_graph(slots=2, names=['f0.xsd', 'f1.xsd', 'f2.xsd'], tag='imports-annotated')
+    notes = Selector('annotation_position', ['none', 'first', 'between'])
+    info.schemas['f0.xsd'].import_notes = notes
+    # f0 imports f1 and f2 (in either slot order); the other files import nothing; start = f0
+    keep = []
+    for sel in sc.selectors:
+        if sel.name.startswith('imp_0_'):
+            keep.append(sel)
+    sc2 = Scenario('imports-annotated', {fn: info.schemas[fn] for fn in info.names}, info.start, sc.selectors + [notes])
+    import z3
+    extra = [sel.var == 0 for sel in sc.selectors if sel.name.startswith('imp_1_') or sel.name.startswith('imp_2_')] + [info.start.var == 0,
+             keep[0].var >= 2, keep[1].var >= 2]
+    sc2.domain = z3.And(sc2.domain, *extra)
+    return sc2, info
+
+
 # ------------------------------------------------------------------------------------------------ WSDL families
 
 NSW = 'http://example.com/orders/v1'
